@@ -672,6 +672,11 @@ def run_case(prop, case, res):
         if hz and not ok:
             res.inconclusive.append("oracle self-check failed (timed vs sequential reference) on %r" % (case["prog"],))
             return
+    if case.get("dcache") and ref.crossing and not hz:
+        # a stale pointer of the interlock-free pipeline happens to be unaligned: a data cache rejects the word-crossing
+        # access by design (C03), the reference has no cache - not this property's matter
+        res.count("skipped_stale_unaligned_pointer_with_dcache")
+        return
     res.count("ref_id_stalls", ref.id_stalls)
     res.count("ref_flushes", ref.flushes)
     res.count("ref_ecall_drains", ref.ex_stalls)
